@@ -4,7 +4,7 @@ cd /verif
 LOG=${RUNALL_LOG:-/tmp/runall.log}; : > $LOG
 for p in $(python3 -c "import json; print(' '.join(c['property_id'] for c in json.load(open('MANIFEST.json'))['checks']))"); do
   s=$(date +%s)
-  out=$(./check $p --tier ${1:-quick} 2>/dev/null | tail -3)
+  out=$(set -o pipefail; ./check $p --tier ${1:-quick} 2>/dev/null | tail -3)
   rc=$?
   echo "$p rc=$rc $(( $(date +%s) - s ))s :: $(echo "$out" | tail -1)" >> $LOG
 done
